@@ -325,6 +325,63 @@ class History:
                   len(self.out.get(ns, {}))),
                  {'op': op} if cls != 'correct' else None)
 
+    def do_dup_ack_race(self):
+        """The same ACK arrives twice, the second one while the callback
+        started by the first is still running.  python-engineio's clients
+        dispatch every incoming message on its own task / thread, so this is
+        an ordinary schedule: on asyncio the callback awaits and the second
+        message's task runs meanwhile; on the threaded client the blocked
+        callback lets the other message threads run (the harness's queued
+        background tasks are pumped from inside the callback).  The callback
+        must run exactly once."""
+        rng, ctx, h = self.rng, self.ctx, self.h
+        ns = rng.choice(self.nss)
+        self.tok += 1
+        tok = self.tok
+        calls = []
+        if h.is_async:
+            async def slow(*args):
+                calls.append(list(args))
+                await asyncio.sleep(0.5)
+        else:
+            def slow(*args):
+                calls.append(list(args))
+                h.pump()
+        op = ['dup_ack_race', tok, ns]
+        self.ops.append(op)
+        extra = {'op': op, 'after_id0_ack': ns in self.id0}
+        try:
+            h.api('emit', 'tok%d' % tok, {'t': tok}, namespace=ns,
+                  callback=slow)
+        except Exception as e:
+            return self.fail('emit with callback raised %r' % e, extra)
+        pk = [p for p in self.new_sent()
+              if p['type'] in (R.EVENT, R.BINARY_EVENT)]
+        if len(pk) != 1 or pk[0]['id'] is None:
+            return self.fail('emit with callback sent %r' % pk, extra)
+        aid = pk[0]['id']
+        if aid in self.out.get(ns, {}):
+            return self.fail('ack id %r reused while outstanding on %r' % (
+                aid, ns), extra)
+        # both ACK frames are queued before anything is processed
+        h.deliver(R.ACK, ns, aid, ['a', tok])
+        h.deliver(R.ACK, ns, aid, ['a', tok])
+        h.pump()
+        errs = h.all_errors()
+        ctx.count('duplicate_ack_races')
+        if errs:
+            return self.fail('duplicate ACK racing with its running callback '
+                             'was not handled without error: %s' %
+                             errs[0]['exc'], extra)
+        if len(calls) != 1 or not R.deep_eq(calls[0], ['a', tok]):
+            return self.fail('callback invoked %d times when its ACK arrived '
+                             'twice, the second time while the callback was '
+                             'still running' % len(calls),
+                             dict(extra, invocations=calls))
+        self.used.setdefault(ns, set()).add(aid)
+        ctx.case((self.kind, 'dup_ack_race', self.serializer),
+                 {'op': op, 'invocations': calls})
+
     def do_call(self):
         rng, ctx, h = self.rng, self.ctx, self.h
         self.tok += 1
@@ -451,6 +508,8 @@ class History:
             return self.do_emit()
         if r < 0.7:
             return self.do_call()
+        if r < 0.72:
+            return self.do_dup_ack_race()
         return self.do_server_ack()
 
     def close(self):
@@ -486,6 +545,7 @@ def run(ctx):
     ctx.require('events_judged', 100)
     ctx.require('acks_checked', 30)
     ctx.require('acks_judged', 50)
+    ctx.require('duplicate_ack_races', 5)
     ctx.require('callbacks_checked', 20)
     ctx.require('calls_judged', 20)
     ctx.require('call_timeouts_observed', 5)
